@@ -6,7 +6,7 @@ from vlib.core import qlit, qvec, qmat, coqbool, natlist, blist, zlist
 
 OBLIGATIONS = dict(
     prop_file='Properties/C02.v',
-    glue=['Glue/CoreGlue.v', 'Glue/CodecGlue.v', 'Glue/Pin_p_residual.v', 'Glue/Pin_p_decode.v', 'Glue/EinopsGlueBase.v', 'Glue/EinopsGlueMore.v'] + ['Glue/Pin_fp_C02.v'],
+    glue=['Glue/CoreGlue.v', 'Glue/CodecGlue.v', 'Glue/Pin_p_residual.v', 'Glue/Pin_p_decode.v', 'Glue/EinopsGlueBase.v', 'Glue/EinopsGlueMore.v'] + ['Glue/Pin_fp_C02.v', 'Glue/GroupCatGlue.v'],
     extra=['Model/ResidualCheck.vo'],
     gen_items=['p_residual', 'p_decode', 'pat_vq_decode', 'pat_fsq_decode', 'pat_lfq_decode', 'pat_rvq_decode', 'p_fsq_codec', 'p_lfq_codec', 'p_lq_codec', 'pr_more', 'pr_scalar', 'fp_C02'],
 )
